@@ -22,7 +22,7 @@ META = {
               "AstropyTable -> recording table (meta only)", "NssConfig(**kwargs) inside config_from_fits -> recorder; the model's own before-validators are then applied to each reconstructed leaf"],
     "assumptions": ["REAL mode; rad<->deg conversion factors are astropy's doubles (their product differs from 1 by < 2.3e-16): reconstructed angles are compared within 4e-16 relative", "printing a double and parsing the text back is exact (Python float repr round-trips)"],
 }
-LEDGER = {"quick": 200, "thorough": 200}
+LEDGER = {"quick": 262, "thorough": 200}
 
 FLOAT_LEAVES = {
     ("detector", "initial_position", "altitude"), ("detector", "initial_position", "latitude"), ("detector", "initial_position", "longitude"),
@@ -332,7 +332,7 @@ def _real_roundtrip(job, ob, values, leaf):
 
 
 MANIFEST_ENTRY = {
-    "level_text": "Partial claim. The real results_table.init, flatten_dict/_flat and config_from_fits are executed with every float leaf of the configuration symbolic (both spectrum types x three cloud models): the header has exactly one HIERARCH Config key per leaf of the dump with no collisions, and every field config_from_fits reconstructs -- after the model's own before-validators -- equals the original (z3: identical symbol, or within 4e-16 relative for the rad/deg text conversion), and the reload succeeds for every spectrum type. Counterexamples are replayed end to end with a real FITS file.",
+    "level_text": "Partial claim. The real results_table.init, flatten_dict/_flat and config_from_fits are executed with every float leaf of the configuration symbolic (both spectrum types x four cloud configurations: none, uniform with a symbolic altitude, uniform with its default altitude -inf which FITS cannot represent, pressure map): the header has exactly one HIERARCH Config key per leaf of the dump with no collisions, and every field config_from_fits reconstructs -- after the model's own before-validators -- equals the original (z3: identical symbol, or within 4e-16 relative for the rad/deg text conversion), and the reload succeeds for every spectrum type. Counterexamples are replayed end to end with a real FITS file.",
     "level_note": "int() inside the reader is kept symbolic (Ackermannised truncation; integrality not encoded: sound over-approximation, counterexamples are re-found on the real code next to the model value). A path that drops a leaf from the header is explored up to 24 paths per job. NOT covered: bit-for-bit FITS column/header I/O (astropy.io.fits) -- not claimed. Quantity, fits.open, AstropyTable and the NssConfig constructor are stubs as listed in the evidence; unit algebra itself is astropy's (queried at run time).",
     "technique": "symbolic execution of the real Python source with symbolic configuration leaves + z3 (term identity / linear real arithmetic)",
 }
